@@ -218,10 +218,12 @@ def split_monitors(line):
     return " | ".join(out), mons
 
 
-def primary_monitors(mons):
+def primary_monitors(mons, stuck=False):
     """drop monitors that are mere consequences of another one in the same case"""
     s = list(dict.fromkeys(mons))
     has = lambda p: any(m.startswith(p) for m in s)
+    if stuck:   # an operation that never completes is never destroyed; reported as `stuck`
+        s = [m for m in s if not m.startswith(("op-never-destroyed", "leak"))]
     if has("op-destroyed-while-running"):
         s = [m for m in s if not m.startswith(("use-after-destroy", "op-never-destroyed", "leak", "op-destroyed-twice", "result-"))]
     if has("op-destroyed-twice"):
@@ -261,6 +263,8 @@ class StreamPart:
             return
         cov["sanitizer_aborts"] = cov.get("sanitizer_aborts", 0) + len(crashes)
         for k, site, err in crashes:
+            if "(tu " in lines[k] or "(situ " in lines[k]:
+                site += " (pipeline with take_until)"
             verdict.add(f"{self.name}: {site}", f"the real library aborted under ASan/UBSan on a generated pipeline: {lines[k]}",
                         dict(stream=self.name, case=lines[k], sanitizer_report=err), found_input=True)
         keep = [i for i, x in enumerate(impl) if x is not None]
@@ -284,7 +288,7 @@ class StreamPart:
             # object-lifetime monitors are attributed to take_until when the pipeline contains one (DESIGN §8 #6), so that
             # a known finding there cannot mask a lifetime defect of another adaptor
             tu = " (pipeline with take_until)" if ("(tu " in parts[2] or "(situ " in parts[2]) else ""
-            for m in primary_monitors(mons):
+            for m in primary_monitors(mons, trace.endswith("stuck")):
                 m = m + (tu if m.startswith(("op-", "leak")) else "")
                 verdict.add(f"{self.name}: monitor {m}", f"implementation monitor fired: {a}",
                             dict(stream=self.name, case=l, impl=a, model=b), found_input=True)
